@@ -52,6 +52,11 @@ impl<Octs: Octets> FlowSpecNlri<Octs> {
                 while parser.pos() < pos + len as usize {
                     Component::parse(parser)?;
                 }
+                if parser.pos() != pos + len as usize {
+                    return Err(ParseError::form_error(
+                        "FlowSpec component exceeds length of NLRI"
+                    ));
+                }
             }
             Afi::Ipv6 => {
                 debug!("FlowSpec v6 not implemented yet, \
